@@ -160,6 +160,18 @@ int main(int argc, char** argv) {
       }
     }
   }
+  /* the copying builders with lengths no allocator can satisfy: they ask for at least that many bytes (and are refused), or for nothing */
+  for (int k = 0; k <= 3; k++)
+    for (int which = 0; which < 2; which++) {
+      static unsigned char src16[16] = "0123456789abcdef";
+      uint64_t c = k == 3 ? (1ull << 63) : ~0ull - (uint64_t)k;
+      va_reset_counters();
+      long r0 = va.requests;
+      cbor_item_t* it = which ? cbor_build_stringn((const char*)src16, (size_t)c) : cbor_build_bytestring(src16, (size_t)c);
+      /* (the item header is the first request, the payload block the second) */
+      e2e(which ? "build_stringn" : "build_bytestring", c, 1, it != NULL, va.requests - r0 >= 2, va.requests - r0 >= 2 ? va_last_req_size : 0);
+      if (it) cbor_decref(&it);
+    }
   /* serialized size of chunked strings whose chunks claim huge lengths (handles never dereferenced by the size function) */
   static const uint64_t lens[][3] = {{1ull << 62, 1ull << 62, 0}, {1ull << 63, 1ull << 63, 0}, {~0ull - 9, 1, 0}, {~0ull - 12, 1, 0}, {~0ull - 13, 1, 0}, {1ull << 63, (1ull << 63) - 20, 0},
                                      {1ull << 40, 1ull << 41, 1ull << 42}, {~0ull, 0, 0}, {~0ull - 9, 0, 0}, {5, 6, 7}, {0, 0, 0}, {1ull << 63, (1ull << 63) - 13, 1}};
